@@ -225,7 +225,7 @@ with cstmt (c : nat) (sl : option nat) (s : stmt) (st : cst) {struct s} : list c
     let full := cbody ++ cstep in
     let full := full ++ [I OP_JMP_POP [neg_off (1 + length cond + length full)]] in
     let st := {| fid := fid st; lreg := lreg st - (match name with Some _ => 1 | None => 2 end); fbuf := fbuf st |} in
-    (ca ++ [I OP_STORE_FAST [idn]] ++ cb_ ++ [I OP_STORE_FAST [endr]] ++ cond
+    (ca ++ [I (if collide then OP_STORE else OP_STORE_FAST) [idn]] ++ cb_ ++ [I OP_STORE_FAST [endr]] ++ cond
         ++ [I OP_WHILE_LOOP [sN (length full + 1)]] ++ resolve (length full) (length cstep) 0 full
         ++ (if collide then [] else [I OP_DELETE_NAME_SCOPED [idn; endr]]), st)
   | SBreak => ([CBrk (match sl with Some n => n | None => 0 end)], st)
